@@ -10,6 +10,9 @@ import (
 	"golang.org/x/tools/go/ssa"
 )
 
+// Tier is the verification tier of the current run ("quick" skips clauses marked slow).
+var Tier = "thorough"
+
 // Obl is one proof obligation: Goal must be valid given the first Prefix commands.
 type Obl struct {
 	Name    string
@@ -27,6 +30,7 @@ type Obl struct {
 	Model   string
 	Props   []string
 	Candidate bool // Model comes from a weakened query
+	Retried bool
 }
 
 // State is the symbolic heap at a program point. Heaps absent from H are the entry heaps.
@@ -106,6 +110,7 @@ type Gen struct {
 	extraTrusted map[string]bool
 	UsedSpecs map[string]bool
 	frozen   bool
+	nameAddrs map[string]ssa.Value
 	rangeAssumed map[string]bool
 	shapeErrors []string
 	errClasses []string
@@ -278,7 +283,8 @@ func (g *Gen) heapFor(sort string) string {
 			wf = sAnd(app("<=", pObj(app("if.val", cell)), "alloc@0"), app("<=", "0", app("if.dyn", cell)))
 		}
 		if wf != "" {
-			g.prelude = append(g.prelude, fmt.Sprintf("(assert (forall ((o!q Int) (i!q %s)) (! %s :pattern (%s))))", g.M.IX(), wf, cell))
+			// (only for the objects that exist at entry: cells of later objects are described by the code that creates them)
+			g.prelude = append(g.prelude, fmt.Sprintf("(assert (forall ((o!q Int) (i!q %s)) (! (=> (<= o!q alloc@0) %s) :pattern (%s))))", g.M.IX(), wf, cell))
 		}
 	}
 	return h
